@@ -247,6 +247,17 @@ func init() {
 					}
 				}
 			}
+			// readiness against a store that accepts the connection but never answers
+			{
+				rs := reqSpec{Target: "/ready"}
+				v, real := e.serveCase(rs, &faultPlan{at: map[string]string{"ping#1": "hang"}}, "storefault:readiness-hang")
+				if v != nil {
+					c.casen(fmt.Sprintf("c13|%v|readiness|hang", redis), "readiness hang => "+real)
+					if v.Status == 200 {
+						c.violation("C13", "readiness endpoint reports ready while the store does not answer", map[string]interface{}{"fault": "ping hangs beyond any deadline", "response": real})
+					}
+				}
+			}
 			// liveness: the proxy still serves a normal request afterwards
 			b := newBrowser()
 			b.jarFromHeader(e.issueSessionCookie(e.sessionFor(u, 30*time.Second)))
